@@ -2388,6 +2388,22 @@ def gen_c15(rng, tier):
                 b["np"] = ("knearest", rng.randint(1, 4), rng.choice(ALL_SIM_METRICS))
         return t
     t = gen_sim(rng, tier, metrics=ALL_SIM_METRICS)
+    if rng.random() < 0.15 and t["cx"] is not None and len(t["cx"][0]) >= 2:
+        # a metric whose parameters scipy estimates from the arrays it is given (seuclidean: variances, mahalanobis: covariance): the library
+        # computes the distances of ONE query row to the history at a time, so the simulator must not hand a whole batch to one cdist call;
+        # drifting contexts (the test rows are spread differently from the training rows) and batches of several rows make the difference visible
+        m = rng.choice(["seuclidean", "mahalanobis"])
+        n = len(t["cx"])
+        t["cx"] = [[round(row[0] * (1.0 + 3.0 * i / n), 3)] + [float(v) for v in row[1:]] for i, row in enumerate(t["cx"])]
+        kinds = [("knearest", rng.randint(2, 4), m)]
+        if rng.random() < 0.5:
+            kinds.append(("radius", rng.choice([1.0, 1.5, 2.0, 3.0]), m, None))
+            if rng.random() < 0.5: kinds.reverse()
+        t["bandits"] = [{"name": "b%d" % i, "lp": rng.choice([("greedy", 0.0), ("ucb", 1.0)]), "np": npol, "seed": rng.randint(0, 10**6)} for i, npol in enumerate(kinds)]
+        t["is_ordered"] = True
+        if t["batch_size"] == 1:
+            t["batch_size"] = rng.choice([0, 3, 5])
+        return t
     if rng.random() < 0.3:
         # the shared distance dictionary: two or three neighbourhood bandits with ONE metric, KNearest and Radius in both orders,
         # over deterministic learning policies; the radius is a distance that occurs in the data (neither 0 nor 1), so whatever a
